@@ -25,6 +25,18 @@ CHECKS = {
  'C14': ('model_checking', 'lifecycle-event automaton per node/run evaluated by TLC on the merged recorded history', '7 C14'),
  'C19': ('model_checking', 'recording store; TLC checks exactly-one save per produced node value and no marker/failure saves at run return', '7 C19'),
 }
+SIDE = {
+ 'C15': ('translation_validation', 'Builder.tla: declarative ExpectedGraph + worklist machine with nondeterministic pop model-checked by TLC (confluence, validated-once) on every small declaration set; the real build_dag output for generated source modules validated by TLC against ExpectedGraph', '7 C15',
+         'TLA+ builder specification: TLC model-checks traversal-order independence; TLC compares real build_dag graphs with the declarative graph', 'tla-builder'),
+ 'C16': ('translation_validation', 'every single-defect mutation of generated declaration sets at every node, built with the real build_dag / build_node; TLC compares the raised error class with ExpectedVerdict of Builder.tla; the worklist machine shows rejection in every traversal order', '7 C16',
+         'TLA+ builder specification (ExpectedVerdict) evaluated by TLC on real build results; worklist machine model-checked', 'tla-builder'),
+ 'C17': ('model_checking', 'every execution-mode assignment on the virtual loop plus a sample on a real event loop with real thread/process pools, all validated at level O against the mode-free TLA+ semantics; five pool-registry states in fresh interpreters checked by the C17.pool clause', '7 C17',
+         'level-O TLA+ trace validation of virtual-loop and real-loop/real-pool executions; pool fail-fast clause', 'tla-level-o'),
+ 'C18': ('model_checking', 'ArtifactStore.tla (write-once map) model-checked exhaustively on a small instance; seeded save/load histories of the real FileSystemArtifactStore over adversarial ids, both formats, shared directories and failing serialisers validated action by action by TLC', '7 C18',
+         'TLA+ state machine model-checked by TLC + trace validation of real store histories', 'tla-artifact-store'),
+ 'C20': ('translation_validation', 'the configuration produced by the real GraphConfigImpl for DAGs built from generated source modules compared by TLC with Viewer.tla ExpectedConfig (derived from the declarations through Builder.tla); repeated generation on one object; DAG snapshot unchanged', '7 C20',
+         'TLA+ viewer specification evaluated by TLC on real generated descriptions', 'tla-viewer'),
+}
 checks = []
 for pid, (cat, text, ref) in CHECKS.items():
     checks.append({
@@ -38,7 +50,20 @@ for pid, (cat, text, ref) in CHECKS.items():
         'level_note': RUNTIME_NOTE,
         'technique': 'TLA+ specification (Dataflow.tla/ObsTrace.tla) checked by TLC against traces recorded from the real engine on a controlled event loop',
     })
-claimed = set(CHECKS)
+for pid, (cat, text, ref, tech, eng) in SIDE.items():
+    checks.append({
+        'property_id': pid,
+        'quick_cmd': './check %s --tier quick' % pid,
+        'thorough_cmd': './check %s --tier thorough' % pid,
+        'evidence_file': '/verif/evidence/%s.json' % pid,
+        'replay_cmd_template': './check replay {path}',
+        'engine': eng,
+        'level_claimed': {'category': cat, 'text': text, 'design_ref': 'DESIGN.md section ' + ref},
+        'level_note': 'Trusted: TLC 1.8 + CommunityModules; the generators of declaration modules / store histories; see DESIGN.md section 9.',
+        'technique': tech,
+    })
+checks.sort(key=lambda c: c['property_id'])
+claimed = set(CHECKS) | set(SIDE)
 m = {
  'version': 1,
  'setup_cmd': 'true',
@@ -46,7 +71,10 @@ m = {
            'enable': 'no in-repo hooks: the harness observes the engine through DAG.run_manager, recording collaborators and a virtual event loop',
            'baseline_off_cmd': 'cd /repo && /venv/bin/python -m pytest -ra -q -p no:cacheprovider --timeout=900 --continue-on-collection-errors',
            'source_commits': [], 'add_only': True},
- 'engines': [{'name': 'tla-level-o', 'path': '/verif/spec/ObsTrace.tla', 'serves_properties': sorted(claimed),
+ 'engines': [{'name': 'tla-builder', 'path': '/verif/spec/Builder.tla', 'serves_properties': ['C15', 'C16'], 'kind_free_text': 'declarative graph + worklist machine (BuilderMachine.tla), BuilderTrace.tla for real build results'},
+             {'name': 'tla-artifact-store', 'path': '/verif/spec/ArtifactStore.tla', 'serves_properties': ['C18'], 'kind_free_text': 'write-once map state machine + ArtifactStoreTrace.tla'},
+             {'name': 'tla-viewer', 'path': '/verif/spec/Viewer.tla', 'serves_properties': ['C20'], 'kind_free_text': 'expected viewer configuration + ViewerTrace.tla'},
+             {'name': 'tla-level-o', 'path': '/verif/spec/ObsTrace.tla', 'serves_properties': sorted(set(CHECKS) | {'C17'}),
               'kind_free_text': 'observable-level TLA+ trace specification + TLA+ reference semantics, evaluated by TLC on recorded executions'}],
  'checks': checks,
  'notes': 'see DESIGN.md; known findings in known_findings.json',
